@@ -67,6 +67,13 @@ CONSTANTS = {
         # `utf8_bounds`: a negative start -k is the k-th character from the end
         ("SUBSTRC_NTH_BACK_ADJ", S,
          r"val\.char_indices\(\)\s*\.nth_back\(back - (\d+)\)\s*\.map_or\(0, \|\(offset, _\)\| offset\)", "int"),
+        # `regexp_is_match` (array patterns): the per-call cache of compiled expressions is keyed by the
+        # COMPLETE pattern `(?flags)pattern` (String), looked up and inserted under that key
+        ("REGEXP_CACHE_KEY", "arrow-string/src/regexp.rs",
+         r"pub fn regexp_is_match<'a, S1, S2, S(\d)>\((?:(?!\nmacro_rules|\npub fn |\nfn ).)*?let mut patterns: HashMap<String, Regex> = HashMap::new\(\);(?:(?!\nmacro_rules|\npub fn |\nfn ).)*?pattern\.map\(\|pattern\| match flags \{\s*Some\(flag\) => format!\(\"\(\?\{flag\}\)\{pattern\}\"\),\s*None => pattern\.to_string\(\),\s*\}\)(?:(?!\nmacro_rules|\npub fn |\nfn ).)*?\(Some\(value\), Some\(pattern\)\) => \{\s*let existing_pattern = patterns\.get\(&pattern\);(?:(?!\nmacro_rules|\npub fn |\nfn ).)*?let re = Regex::new\(pattern\.as_str\(\)\)(?:(?!\nmacro_rules|\npub fn |\nfn ).)*?patterns\.entry\(pattern\)\.or_insert\(re\)", "int"),
+        # the same cache in `regexp_match` (macro process_regexp_array_match)
+        ("REGEXP_MATCH_CACHE_KEY", "arrow-string/src/regexp.rs",
+         r"macro_rules! process_regexp_array_match \{(?:(?!\nmacro_rules|\npub fn |\nfn ).)*?let mut patterns: HashMap<String, Regex> = HashMap::new\(\);(?:(?!\nmacro_rules|\npub fn |\nfn ).)*?Some\(value\) => format!\(\"\(\?\{value\}\)\{pattern\}\"\),\s*None => pattern\.to_string\(\),(?:(?!\nmacro_rules|\npub fn |\nfn ).)*?let existing_pattern = patterns\.get\(&pattern\);(?:(?!\nmacro_rules|\npub fn |\nfn ).)*?let re = Regex::new\(pattern\.as_str\(\)\)(?:(?!\nmacro_rules|\npub fn |\nfn ).)*?patterns\.entry\(pattern\)\.or_insert\(re\)(?:(?!\nmacro_rules|\npub fn |\nfn ).)*?if caps\.len\(\) > (\d+) \{", "int"),
         # `bit_length_impl`: bits per byte
         ("BIT_LENGTH_FACTOR", "arrow-string/src/length.rs",
          r"let bits = P::Native::usize_as\((\d+)\);", "int"),
